@@ -295,3 +295,44 @@ Theorem C09_avoid_collisions_terminates shapes cbx cbw rtl bw bh y :
   avoid (S (length shapes)) shapes cbx cbw rtl bw bh y <> NoFuel.
 Proof. exact (avoid_fuel_enough shapes cbx cbw rtl bw bh y). Qed.
 Print Assumptions C09_avoid_collisions_terminates.
+
+(* ---- 5. text_align(context, line, available_width, last) of weasyprint/layout/inline.py REGENERATED from the source
+   on every run (gen/GenInline.v, interpreter base/Py.v) computes the model text_align used in section 2, for every
+   text-align-all / text-align-last / white-space / direction value, last-line flag, line width and available width
+   (TA.line_box: line.width and the four entries of line.style, anything else abstract): it returns a number == the
+   model's offset; and it runs the external statement justify_line(context, line, offset) exactly when the model
+   answers Some extra, with an extra_width == extra (TA.text_align_post: the line is then in the state
+   jl [context; line; extra_width] for whatever function jl of its arguments justify_line is, TA.justify_oracle;
+   otherwise the line is untouched and no external statement has run).  So the theorems of section 2 are about the
+   source. *)
+Require WV.base.Py WV.gen.GenInline WV.proofs.C09_gen_text_align.
+Module TA := WV.proofs.C09_gen_text_align.
+
+Theorem C09_source_text_align O (HO : Py.ops_ok O) cf w av a l ws rtl last srest rest ret jl :
+  Py.run (Py.with_calls O (TA.justify_oracle ret jl)) GenInline.text_align_body
+    [("context"%string, Py.VObj cf); ("line"%string, TA.line_box w a l ws rtl srest rest);
+     ("available_width"%string, Py.VNum av); ("last"%string, Py.VBool last)]
+    (TA.text_align_post (Py.VObj cf) (TA.line_box w a l ws rtl srest rest) ret jl
+       (text_align w av a l rtl (space_collapse ws) last))
+    (fun _ => False).
+Proof. exact (TA.gen_text_align O HO cf w av a l ws rtl last srest rest ret jl). Qed.
+Print Assumptions C09_source_text_align.
+
+(* the offset the source returns lies in [0, available_width - line.width], and is 0 for a line as wide as the
+   available width or wider, for every direction / last-line flag / text-align(-last) / white-space value *)
+Theorem C09_source_text_align_offset_in_range O (HO : Py.ops_ok O) cf w av a l ws rtl last srest rest ret jl :
+  Py.run (Py.with_calls O (TA.justify_oracle ret jl)) GenInline.text_align_body
+    [("context"%string, Py.VObj cf); ("line"%string, TA.line_box w a l ws rtl srest rest);
+     ("available_width"%string, Py.VNum av); ("last"%string, Py.VBool last)]
+    (fun _ res => exists o, res = Some (Py.VNum o) /\ 0 <= o /\ (w <= av -> o <= av - w) /\ (av <= w -> o == 0))
+    (fun _ => False).
+Proof. exact (TA.gen_text_align_offset_in_range O HO cf w av a l ws rtl last srest rest ret jl). Qed.
+Print Assumptions C09_source_text_align_offset_in_range.
+
+(* justify_line is called iff the effective alignment is justify, white space collapses and the line is narrower
+   than the available width; it is given the room that is left *)
+Theorem C09_text_align_justifies_iff w av a l rtl col last e :
+  snd (text_align w av a l rtl col last) = Some e <->
+  effective a l last = AJustify /\ col = true /\ w < av /\ e = av - w.
+Proof. exact (TA.text_align_justifies_iff w av a l rtl col last e). Qed.
+Print Assumptions C09_text_align_justifies_iff.
